@@ -39,7 +39,7 @@ ASSUMPTIONS = [
     "at r == s only the inclusive range is accepted",
     "two ranges with the same (marker, start) have no order-independent meaning and are not generated",
 ]
-REQUIRED = {"route:api": 20, "route:text": 10, "probe:at_start": 20, "shared_start_both_markers": 5}
+REQUIRED = {"repeated_marker_start": 10, "route:api": 20, "route:text": 10, "probe:at_start": 20, "shared_start_both_markers": 5}
 
 STARTS = [float("-inf"), -1.0, 0.0, 0.5, 1.0, 2.0, 2.5, 3.0, 7.25]
 KINDS = ["d2", "d2", "d1", "d0"]  # sub-potential offers deriv+deriv2 / deriv only / nothing
@@ -48,8 +48,9 @@ KINDS = ["d2", "d2", "d1", "d0"]  # sub-potential offers deriv+deriv2 / deriv on
 @st.composite
 def _case(draw):
     n = draw(st.integers(1, 5))
+    dup = draw(st.integers(0, 5)) == 0
     keys = draw(st.lists(st.tuples(st.sampled_from([">", ">="]), st.sampled_from(STARTS)),
-                         min_size=n, max_size=n, unique=True))
+                         min_size=n, max_size=n, unique=not dup))
     rgs = []
     for i, (m, s) in enumerate(keys):
         a = (i + 1) * 1000.0 + draw(st.integers(-50, 50))
@@ -106,6 +107,31 @@ def _expected(rgs, r):
     return i, alts
 
 
+def _compare_with_rule(rgs, pts, res):
+    """None when every probe agrees with an admissible range, else a description"""
+    for r, (val, d1, d2) in zip(pts, res):
+        i, alts = _expected(rgs, r)
+        if i is None:
+            if val != 0.0 or (d1 not in (None, 0.0)) or (d2 not in (None, 0.0)):
+                return "r=%r -> %r %r %r, want 0 (below every range)" % (r, val, d1, d2)
+            continue
+        ok = False
+        for j in alts:
+            f, g1, g2 = _poly(rgs[j]["c"])
+            good = _close(val, f(r), 1e4)
+            if d1 is not None:
+                good = good and abs(d1 - g1(r)) <= (1e-9 if rgs[j]["kind"] != "d0" else 1e-4)
+            if d2 is not None and rgs[j]["kind"] == "d2":
+                good = good and abs(d2 - g2(r)) <= 1e-12
+            elif d2 is not None and rgs[j]["kind"] == "d1":
+                good = good and abs(d2 - g2(r)) <= 1e-4
+            ok = ok or good
+        if not ok:
+            return "r=%r got (%r,%r,%r); no admissible range among %r gives that; ranges=%r" % (
+                r, val, d1, d2, list(alts), [(g["m"], g["s"]) for g in rgs])
+    return None
+
+
 def _close(x, y, scale):
     return abs(x - y) <= 1e-11 * scale + 1e-300
 
@@ -124,6 +150,9 @@ def check_case(case):
         cls.append("probe:at_start")
     n = len(rgs)
     perms = list(itertools.permutations(range(n)))
+    has_dups = len(keyset) < len(rgs)
+    if has_dups:
+        cls.append("repeated_marker_start")
     all_d2 = all(g["kind"] == "d2" for g in rgs)
     any_d2 = any(g["kind"] == "d2" for g in rgs)
     any_d1 = any(g["kind"] in ("d1", "d2") for g in rgs)
@@ -195,6 +224,13 @@ def check_case(case):
                                   r, val, d1, d2, i, rgs[i]["m"], rgs[i]["s"], f(r), g1(r), g2(r),
                                   [(g["m"], g["s"]) for g in rgs])))
                     break
+        elif has_dups:
+            # repeated (marker, start): which of the twins answers is not order-independent; every order is
+            # compared with the selection rule instead (any twin is admissible)
+            bad = _compare_with_rule(rgs, pts, res)
+            if bad:
+                v.append(("api:selection", "order %r: %s" % (perm, bad)))
+                break
         elif res != base:
             k = [a != b for a, b in zip(res, base)].index(True)
             v.append(("api:permutation", "order %r differs from %r at r=%r: %r vs %r" % (
